@@ -481,3 +481,10 @@ VARIANTS += [
     V("C06", "every float default reported as unknown", VIS, "                if isinstance(inferred_default_value, float) and not math.isfinite(inferred_default_value):", "                if isinstance(inferred_default_value, float):", "C06.LITERAL-VALUE"),
     V("C06", "benign: infinity recognised with isinf", VIS, "                if isinstance(inferred_default_value, float) and not math.isfinite(inferred_default_value):", "                if isinstance(inferred_default_value, float) and (math.isinf(inferred_default_value) or math.isnan(inferred_default_value)):", None),
 ]
+VARIANTS += [
+    # repairs that can no longer be reversed textually (later repairs touch the same lines), re-introduced in today's form
+    V("C01", "a bare Final raises again", VIS, "                if len(types) == 0:\n                    # A bare \"Final\" has the type that was inferred for the assigned value\n                    return sds_types.FinalType(type_=self.mypy_type_to_abstract_type(mypy_type))",
+      "                if len(types) == 0:\n                    raise ValueError(\"Final type has no type arguments.\")", "C01.RAISE-INVENTORY"),
+    V("C01", "assignment targets asserted to be names or tuples again", VIS, "        if isinstance(lvalue, mp_nodes.StarExpr):\n            lvalue = lvalue.expr\n\n        if isinstance(lvalue, mp_nodes.NameExpr | mp_nodes.MemberExpr):",
+      "        assert isinstance(lvalue, mp_nodes.NameExpr | mp_nodes.MemberExpr | mp_nodes.TupleExpr)\n        if isinstance(lvalue, mp_nodes.NameExpr | mp_nodes.MemberExpr):", "C01.RAISE-INVENTORY"),
+]
